@@ -247,7 +247,12 @@ class Harness:
         return bb
 
     def module_env(self) -> dict[str, Any]:
-        io_sym = Sym("io", {"SEEK_CUR": 1, "SEEK_SET": 0, "SEEK_END": 2})
+        def string_io(initial: str = "") -> Sym:
+            buf = [initial]
+            return Sym("StringIO", {}, {"write": Host(lambda t: (buf.append(t), len(t))[1]), "getvalue": Host(lambda: "".join(buf)),
+                                        "writelines": Host(lambda ls: buf.extend(ls))})
+
+        io_sym = Sym("io", {"SEEK_CUR": 1, "SEEK_SET": 0, "SEEK_END": 2}, {"StringIO": Host(string_io)})
         log = Sym("log", {}, {m: Host(lambda *a, **k: None) for m in ("debug", "info", "warning", "error", "exception", "log")})
         env: dict[str, Any] = dict(self.bb.base_env)
         env.update({
